@@ -1,6 +1,7 @@
 import LentilVerif.Lemmas.Geometry
 import LentilVerif.Lemmas.GeometrySums
 import LentilVerif.Lemmas.GeometryShapes
+import Mathlib.Analysis.SpecialFunctions.Trigonometric.Basic
 /-! # C20 — array geometry helpers share one centre convention (index ⌊n/2⌋)
 
 Property theorems only (helper lemmas live in `Lemmas/Geometry*.lean`). The index arithmetic of `util.pad` (2-D and cube
@@ -336,6 +337,16 @@ theorem centroid_of_indicator (s0 s1 p q : ℕ) (v : Int) (hp : p < s0) (hq : q 
 /-- `hex_ring(k)` lists `6k` cells -/
 theorem hex_ring_length (k : ℕ) : (hexRing k).length = 6 * k := hexRing_length k
 
+/-- every cell of `hex_ring(k)` is a cube coordinate (`q + r + s = 0`) at cube distance exactly `k` from the centre:
+all three coordinates lie in `[-k, k]` and one of them is `±k` -/
+theorem hex_ring_cube_distance (k : ℕ) (c : HexCell) (hc : c ∈ hexRing k) :
+    c.1 + c.2.1 + c.2.2 = 0 ∧ (-(k : Int) ≤ c.1 ∧ c.1 ≤ k) ∧ (-(k : Int) ≤ c.2.1 ∧ c.2.1 ≤ k) ∧ (-(k : Int) ≤ c.2.2 ∧ c.2.2 ≤ k) ∧
+    (c.1 = k ∨ c.1 = -k ∨ c.2.1 = k ∨ c.2.1 = -k ∨ c.2.2 = k ∨ c.2.2 = -k) := by
+  obtain ⟨t, ht, h⟩ := hexRing_mem k c hc
+  rcases h with rfl | rfl | rfl | rfl | rfl | rfl <;>
+    exact ⟨by simp only; omega, ⟨by simp only; omega, by simp only; omega⟩, ⟨by simp only; omega, by simp only; omega⟩,
+      ⟨by simp only; omega, by simp only; omega⟩, by simp⟩
+
 /-- a `k`-ring aperture numbers `1 + 3k(k+1)` cells (centre = 0, then the rings in order) and draws exactly those whose
 number is not in `drop`: their count is `1 + 3k(k+1)` minus the number of distinct in-range numbers dropped
 (duplicates and out-of-range entries of `drop` do not matter) -/
@@ -454,6 +465,31 @@ theorem hexagon_half_turn (half inner : K) (sinT cosT : Nat → K) (n0 n1 : Int)
   rw [k0, k1, k2, k3, k4, k5, e3, f3, e4, f4, e5, f5]
   ac_rfl
 
+/-- mirror symmetry about the origin row when not rotated: circles, rectangles at angle 0 (`ca = 1`, `sa = 0`) and hexagons
+(whose normal set is closed under `(s, c) ↦ (−s, c)`: `normal (5−n)` mirrors `normal n`, true of the angles `n·π/3 + π/6`
+and `n·π/3`… up to the index permutation stated in the hypotheses) are unchanged by `i ↦ 2⌊n0/2⌋ − i` -/
+theorem mirror_when_unrotated (sqrt : K → K) (half : K) (n0 n1 : Int) (radius width height inner : K) (sinT cosT : Nat → K)
+    (perm : Nat → Nat) (hperm : perm 0 = 5 ∧ perm 1 = 4 ∧ perm 2 = 3 ∧ perm 3 = 2 ∧ perm 4 = 1 ∧ perm 5 = 0)
+    (hs : ∀ n, n < 6 → sinT (perm n) = -sinT n) (hc : ∀ n, n < 6 → cosT (perm n) = cosT n) (aa : Bool) (i j : Int) :
+    circleAt sqrt half n0 n1 radius 0 0 aa (2 * (n0 / 2) - i) j = circleAt sqrt half n0 n1 radius 0 0 aa i j ∧
+    rectangleAt half n0 n1 width height 0 0 1 0 aa (2 * (n0 / 2) - i) j = rectangleAt half n0 n1 width height 0 0 1 0 aa i j ∧
+    hexagonAt half inner sinT cosT n0 n1 0 0 aa (2 * (n0 / 2) - i) j = hexagonAt half inner sinT cosT n0 n1 0 0 aa i j := by
+  refine ⟨?_, ?_, ?_⟩
+  · unfold circleAt; simp only [meshCoord_half_turn, neg_mul_neg]
+  · unfold rectangleAt; simp only [meshCoord_half_turn, absK_eq_abs, mul_one, mul_zero, neg_zero, add_zero, zero_add, abs_neg]
+  · unfold hexagonAt
+    simp only [meshCoord_half_turn, minK_eq_min]
+    obtain ⟨p0, p1, p2, p3, p4, p5⟩ := hperm
+    have side : ∀ n, n < 6 → hexSide half inner aa (-meshCoord n0 i (0 : K)) (meshCoord n1 j 0) (sinT (perm n)) (cosT (perm n))
+        = hexSide half inner aa (meshCoord n0 i 0) (meshCoord n1 j 0) (sinT n) (cosT n) := by
+      intro n hn; rw [hs n hn, hc n hn]; unfold hexSide; simp only [neg_mul_neg]
+    have s0 := side 0 (by omega); have s1 := side 1 (by omega); have s2 := side 2 (by omega)
+    have s3 := side 3 (by omega); have s4 := side 4 (by omega); have s5 := side 5 (by omega)
+    rw [p0] at s0; rw [p1] at s1; rw [p2] at s2; rw [p3] at s3; rw [p4] at s4; rw [p5] at s5
+    rw [s0, s1, s2, s3, s4, s5]
+    ac_rfl
+
+
 /-- KNOWN FINDING (KF-C20-hex-gap0-shared-edge), witness on the model: with `seg_gap = 0` and no antialiasing the edge test
 is the closed half-plane `rho ≤ inner` on both sides of a shared edge, so a pixel centre lying exactly on the common edge of two
 neighbouring segments (here: row coordinate `inner` from the first centre, the neighbour's centre `2·inner` further along the
@@ -465,5 +501,22 @@ theorem kf_hex_gap0_shared_edge (half inner c : K) :
   · simp [hexSide]; linarith
 
 end Shapes
+
+/-- the edge normals `lentil.hexagon` actually uses, `θₙ = n·π/3 + φ` (φ = π/6, or 0 when rotated), satisfy the hypotheses of
+`hexagon_half_turn`: `sin θₙ₊₃ = −sin θₙ`, `cos θₙ₊₃ = −cos θₙ` -/
+theorem hexagon_normals_closed_under_negation (φ : ℝ) (n : ℕ) :
+    Real.sin (((n + 3 : ℕ) : ℝ) * Real.pi / 3 + φ) = -Real.sin ((n : ℝ) * Real.pi / 3 + φ) ∧
+    Real.cos (((n + 3 : ℕ) : ℝ) * Real.pi / 3 + φ) = -Real.cos ((n : ℝ) * Real.pi / 3 + φ) := by
+  have e : ((n + 3 : ℕ) : ℝ) * Real.pi / 3 + φ = ((n : ℝ) * Real.pi / 3 + φ) + Real.pi := by push_cast; ring
+  rw [e, Real.sin_add_pi, Real.cos_add_pi]; exact ⟨rfl, rfl⟩
+
+/-- and, unrotated (φ = π/6), the hypotheses of `mirror_when_unrotated`: `θ₅₋ₙ = 2π − θₙ` -/
+theorem hexagon_normals_mirror (n : ℕ) (hn : n < 6) :
+    Real.sin (((5 - n : ℕ) : ℝ) * Real.pi / 3 + Real.pi / 6) = -Real.sin ((n : ℝ) * Real.pi / 3 + Real.pi / 6) ∧
+    Real.cos (((5 - n : ℕ) : ℝ) * Real.pi / 3 + Real.pi / 6) = Real.cos ((n : ℝ) * Real.pi / 3 + Real.pi / 6) := by
+  have e : ((5 - n : ℕ) : ℝ) * Real.pi / 3 + Real.pi / 6 = 2 * Real.pi - ((n : ℝ) * Real.pi / 3 + Real.pi / 6) := by
+    rw [Nat.cast_sub (by omega)]; push_cast; ring
+  rw [e, Real.sin_two_pi_sub, Real.cos_two_pi_sub]; exact ⟨rfl, rfl⟩
+
 
 end Lentil.C20
